@@ -23,7 +23,7 @@ LEVEL_NOTE = ('PARTIAL PROOF (category proof because Lean theorems carry the com
               'in-place list; that each summary is faithful is sampled by the correspondence; the scan\'s alias rule is a trusted '
               'heuristic. Plane-state confluence is sampled only.')
 TECHNIQUE = 'Lean 4 proof (induction over histories, decide +kernel on a regenerated effect table) + history-based differential correspondence'
-GEN = ['Effects']
+GEN = ['Effects', 'FourierWiring']
 OPS = ['C10']
 RULE = ('cases: random histories (length 5..40) of public calls — plane/pupil construction from shared arrays, attribute updates, '
         'fit_tilt (copy and in-place), copy, rescale, multiply, propagate_dft/fft (with scratch), Wavefront.insert/intensity, dft2/idft2 '
@@ -36,7 +36,8 @@ TRUSTED = ['the alias rule of the effect-site scan (tools/specs/c10.py docstring
            'byte-level snapshots + read-only flags observe every write NumPy performs on the tracked arrays; object cells are digested '
            'recursively over vars(obj) (every attribute, nested lentil objects, lists, dicts)',
            'np.random.get_state() captures the whole state of the global generator']
-UNPROVEN = ['each effect summary (row of Gen/Effects.lean) is faithful to the NumPy-level behaviour of the function: sampled by the histories',
+UNPROVEN = ['plane-state confluence: PROVED at model level (plane_state_total_invariant, composed with C04 fit_tilt_history: same total OPD update => same OPD + recorded-tilt total); that multiply/propagate depend only on that total is C04; the histories here sample it',
+            'each effect summary (row of Gen/Effects.lean) is faithful to the NumPy-level behaviour of the function: sampled by the histories',
             'plane-state confluence (same opd + recorded tilt reached by different update/fit_tilt orders => same multiply/propagate '
             'result): sampled by the confluence cases, no theorem',
             'a result depends only on the current arguments: proved for the shared cache and the global generator (the only shared '
@@ -287,7 +288,7 @@ def _catalogue(w, rng, focus):
             if max(PL.shape) <= 4 * N and min(PL.shape) * sc >= 6:
                 op('plane.Plane.rescale', {'self': pl}, lambda: PL.rescale(sc), reskind='plane', weight=4)
                 op('plane.Plane.resample', {'self': pl}, lambda: PL.resample(PL.pixelscale[0] / sc), reskind='plane', weight=2)
-            arrs = [i for i, x in enumerate(C) if isinstance(x, np.ndarray) and (x is PL.opd or x is PL.amplitude)]
+            arrs = [i for i, x in enumerate(C) if isinstance(x, np.ndarray) and x is PL.opd]
             if isinstance(PL.opd, np.ndarray) and PL.opd.flags.writeable:
                 if PL.opd.ndim == 2 and PL.opd.shape == PL.shape:
                     op('plane.Plane.fit_tilt', {'self': pl}, lambda: PL.fit_tilt(inplace=True), inplace=[pl] + arrs, pure=False, returns_arg=True, weight=4, flag=True)
@@ -329,7 +330,7 @@ def _catalogue(w, rng, focus):
             op('plane.Plane.copy', {'self': p}, lambda: P.copy(), reskind='plane')
             op('plane.Plane.fit_tilt', {'self': p}, lambda: P.fit_tilt(), reskind='plane', weight=2, flag=False)
             if isinstance(P.opd, np.ndarray) and P.opd.flags.writeable and P.opd.ndim == 2:
-                refs = [i for i, x in enumerate(C) if isinstance(x, np.ndarray) and (x is P.opd or x is P.amplitude)]
+                refs = [i for i, x in enumerate(C) if isinstance(x, np.ndarray) and x is P.opd]      # never the amplitude or the mask
                 op('plane.Plane.fit_tilt', {'self': p}, lambda: P.fit_tilt(inplace=True), inplace=[p] + refs, pure=False, returns_arg=True, weight=3, flag=True)
             o2 = w.pick(rng, 'opd')
             def setopd(): P.opd = C[o2]
